@@ -186,6 +186,14 @@ func (i *ignore) SetupBlockStatement(meta *ast.Meta) {
 func (i *ignore) TeardownBlockStatement(meta *ast.Meta) {
 	i.restore()
 
+	// comments placed before the closing brace are parsed as infix comments of the block
+	for _, c := range meta.Infix {
+		ignoreType, rules := parseIgnoreComment(c.String())
+		if ignoreType == falcoIgnoreEnd {
+			unignoreRules(&i.ignoreRange, rules)
+		}
+	}
+
 	for _, c := range meta.Trailing {
 		ignoreType, rules := parseIgnoreComment(c.String())
 		if ignoreType == falcoIgnoreEnd {
